@@ -10,7 +10,7 @@ const STREAM_TL: u64 = 1;
 const STREAM_ANIM: u64 = 2;
 
 pub fn run(run: &mut Run) {
-    run.rule = "derive timelines over 6 shapes (two with fields lacking #[animate]), sparse keyframe sets where properties \
+    run.rule = "derive timelines over 7 shapes (two with fields lacking #[animate]), sparse keyframe sets where properties \
         have no keyframe, empty timelines, merged timelines and state animators; every target field is pre-filled with a \
         random bit pattern (NaN payloads included) and compared bit-for-bit after update at times from every phase \
         (before start, active, later cycles, reverse pass, ended); in animator histories every field the current state's \
@@ -27,14 +27,14 @@ pub fn run(run: &mut Run) {
         for i in my_cases(rc, STREAM_TL, n, w, nw) {
             guarded(acc, "c08", STREAM_TL, i, |acc| {
                 let mut r = Rng::derive(seed, STREAM_TL, i);
-                let shape = r.usize(6);
+                let shape = r.usize(crate::shapes::N_SHAPES);
                 with_shape!(shape, tl_case(&mut r, acc, i));
             });
         }
         for i in my_cases(rc, STREAM_ANIM, n / 10, w, nw) {
             guarded(acc, "c08", STREAM_ANIM, i, |acc| {
                 let mut r = Rng::derive(seed, STREAM_ANIM, i);
-                let shape = r.usize(6);
+                let shape = r.usize(crate::shapes::N_SHAPES);
                 with_shape!(shape, anim_case(&mut r, acc, i));
             });
         }
